@@ -25,22 +25,32 @@ FRAGMENTS = {
     'lib.rs': 'lib.rs',
 }
 
+# Kani function contracts spliced onto REAL functions of the scratch copy (the modular route of Kani: the contract is
+# proved once by a `proof_for_contract` harness and then used instead of the body via `stub_verified`)
+KANI_CONTRACTS = [
+    ('aead.rs', r'^fn increment_seq\(seq: &Seq\) -> Option<Seq> \{',
+     '#[cfg_attr(kani, kani::ensures(|r: &Option<Seq>| match r { None => seq.0 == u64::MAX, Some(s) => seq.0 != u64::MAX && s.0 == seq.0 + 1 }))]\n'),
+]
+
+
 def H(name, props, tier='quick', bound=None, timeout=600, features='', should_panic=False, extra=()):
     return {'name': name, 'props': props, 'tier': tier, 'bound': bound, 'timeout': timeout, 'features': features, 'extra': list(extra)}
 
 # name must be unique; `props` = properties whose check runs the harness
 ALL = [
     H('write_u16_be_full', ['C02', 'C04']),
-    H('write_u64_be_full', ['C02', 'C04']),
+    H('write_u64_be_full', ['C02', 'C04', 'C05']),
     H('write_u64_be_wrong_len_panics', ['C13'], tier='thorough'),
-    H('suite_ids_table_x25519', ['C02', 'C07']),
+    H('suite_ids_table_x25519', ['C02', 'C07', 'C18']),
+    H('kem_ids_table', ['C02', 'C03'], features='p384,p521'),
     H('suite_ids_table_p256', ['C02', 'C07']),
     H('suite_ids_table_p384', ['C02', 'C07'], tier='thorough', features='p384,p521'),
     H('suite_ids_table_p521', ['C02', 'C07'], tier='thorough', features='p384,p521'),
     H('kdf_ids_table', ['C02', 'C07', 'C11']),
     H('increment_seq_full', ['C04', 'C05']),
+    H('increment_seq_contract', ['C04', 'C05']),
     H('seq_default_is_zero', ['C04', 'C01']),
-    H('mix_nonce_full_aes128', ['C04', 'C02']),
+    H('mix_nonce_full_aes128', ['C04', 'C02', 'C05']),
     H('mix_nonce_full_aes256', ['C04'], tier='thorough'),
     H('mix_nonce_full_chacha', ['C04'], tier='thorough'),
     H('seal_state_machine_model', ['C04'], tier='thorough'),
@@ -59,19 +69,23 @@ ALL = [
     H('drop_wipes_ctx_fields', ['C16']),
     H('drop_wipes_nonce_exportonly', ['C16']),
     H('drop_wipes_shared_secret', ['C16']),
+    H('drop_wipes_shared_secret_p521', ['C16'], features='p384,p521'),
+    H('drop_wipes_shared_secret_p384', ['C16'], tier='thorough', features='p384,p521'),
     H('drop_wipes_exporter_sha256', ['C16']),
     H('drop_wipes_exporter_sha384', ['C16'], tier='thorough'),
     H('drop_wipes_exporter_sha512', ['C16'], tier='thorough'),
-    H('gen_keypair_depends_only_on_rng', ['C18', 'C03']),
+    H('gen_keypair_depends_only_on_rng', ['C18', 'C03', 'C02']),
     H('aead_ids_and_sizes_table', ['C02', 'C12']),
     H('x25519_dh_zero_check', ['C10', 'C03']),
     H('write_exact_x25519', ['C12']),
     H('x25519_from_bytes_full', ['C12', 'C13']),
     H('x25519_decap_zero_dh_rejected', ['C10', 'C13'], timeout=1500),
     H('x25519_encap_zero_dh_rejected', ['C10', 'C13'], timeout=1500),
+    H('x25519_dhkem_kdf_inputs', ['C03', 'C07', 'C08', 'C02'], tier='thorough', timeout=1500),
     H('write_exact_x25519_wrong_len_panics', ['C12'], tier='thorough'),
     H('nist_sk_from_bytes_p256', ['C09', 'C12'], timeout=1500),
-    H('nist_sk_from_bytes_p384', ['C09', 'C12'], tier='thorough', features='p384,p521', timeout=3000),
+    H('nist_sk_from_bytes_p384', ['C09', 'C12'], features='p384,p521', timeout=3000),
+    H('nist_sk_from_bytes_p521', ['C09'], features='p384,p521', timeout=3000),
 ]
 
 
@@ -81,6 +95,8 @@ TWINS = {
     'seal_in_place_detached': 'seal_state_machine_model',
     'open_in_place_detached': 'open_state_machine_model',
     'gen_keypair': 'gen_keypair_depends_only_on_rng',
+    'encap_with_eph': 'x25519_dhkem_kdf_inputs',
+    'decap_body': 'x25519_dhkem_kdf_inputs',
     'full_suite_id': 'suite_ids_table_x25519',
     'kem_suite_id': 'suite_ids_table_x25519',
 }
@@ -118,6 +134,13 @@ def build_scratch(out):
             shutil.copytree(os.path.join(REPO, d), os.path.join(out, d))
     os.makedirs(os.path.join(out, '.cargo'), exist_ok=True)
     open(os.path.join(out, '.cargo', 'config.toml'), 'w').write('[net]\noffline = true\n')
+    for rel, rx, attr in KANI_CONTRACTS:
+        p = os.path.join(out, 'src', rel)
+        txt = open(p).read()
+        m = re.search(rx, txt, re.M)
+        if not m:
+            raise RuntimeError('anchor of a Kani function contract lost in src/%s: %s' % (rel, rx))
+        open(p, 'w').write(txt[:m.start()] + attr + txt[m.start():])
     for frag, rel in FRAGMENTS.items():
         fp = os.path.join(V, 'kani', frag)
         if not os.path.exists(fp):
